@@ -69,7 +69,7 @@ PROPS = {
         ],
     },
     "C06": {
-        "workloads": [("conn", "c01", 3000, 40000, None), ("conn", "c05", 3000, 40000, None), ("hist", "c08", 800, 10000, None), ("examples", "c06", 1200, 15000, None), ("ns", "c18", 4000, 50000, None), ("conn", "c02", 2500, 40000, None)],
+        "workloads": [("conn", "c01", 3000, 40000, None), ("conn", "c05", 3000, 40000, None), ("hist", "c08", 800, 10000, None), ("examples", "c06", 1200, 15000, None), ("ns", "c18", 4000, 50000, None), ("conn", "c02", 2500, 40000, None), ("genp", "c09", 1500, 20000, None)],
         "rule": (
             "the closedness monitor (sim/netview.py closed_violations: unique names, definition before use, every port names a declared signal, every instance "
             "target resolves and has each port connected exactly once, every connection target declared / in range / of the port's width, from_proto and the spice and "
